@@ -19,7 +19,9 @@ func init() {
 
 var tokMeta = []string{"x", "v", "-", "--", "-a", "--aa", "-a=true", "-b", "-ab", "-ba", "-o", "-ov", "-o=v", "--out", "--out=v", "-aov", "-ao",
 	// a value made of characters that matter elsewhere (underscore, equals sign, dash), in every spelling
-	"w_=-z", "-ow_=-z", "--out=w_=-z"}
+	"w_=-z", "-ow_=-z", "--out=w_=-z",
+	// a value with blanks around it, attached to the short name and to the long name
+	"-o p ", "--out= p "}
 var tokMetaSm = []string{"x", "--", "-a", "--aa", "-b", "-ab", "-ba", "-o", "-ov", "--out=v", "-ao"}
 var tokTail = []string{"x", "-a", "-z", "--zz", "--", "-", "-o", "-o=", "--a"}
 
